@@ -231,8 +231,8 @@ def build_response(scn, rec, cfg=None):
                 "type": {"class": "numeric", "integer": True, "missing_rules": {},
                          "missing_reasons": {"No Data": -1},
                          "subvariables": [_item_subvar_id(d, p) for p in range(1, d["n"] + 1)]}}
-        measures["overlap"] = {"data": list(fov["ov"]), "metadata": meta, "n_missing": 0}
-        measures["valid_overlap"] = {"data": list(fov["vov"]), "metadata": copy.deepcopy(meta),
+        measures["overlap"] = {"data": [num(x) for x in fov["ov"]], "metadata": meta, "n_missing": 0}
+        measures["valid_overlap"] = {"data": [num(x) for x in fov["vov"]], "metadata": copy.deepcopy(meta),
                                      "n_missing": 0}
     flaty = rec.get("flaty")
     if flaty:
